@@ -61,7 +61,7 @@ def gen_program():
         P("%s + %s" % (q(fm[:h]), q(fm[h:])))
         decls.append("const cUse%s = %s" % (i, q(mk("const-used-as-value", n, dem)))); P("cUse" + i)
         decls.append("const cTyped%s string = %s" % (i, q(mk("typed-string-const-used-as-value", n, dem)))); P("cTyped" + i)
-        P("ident(\"prefix-\" + cFold%s)" % i); decls.append("const cFold%s = %s" % (i, q(mk("const-folded-at-use", n, dem))))
+        P("ident(\"prefix-\" + cFold%s)" % i); decls.append("const cFold%s = %s" % (i, q(mk("const-folded-at-use", n, False))))  # untyped operand of a constant expression: only the folded whole is a string-typed value
         markers[("prefix-" + [m for m, v in markers.items() if v[0] == "const-folded-at-use" and v[1] == n][0])] = ("const-folded-at-use-whole", n + 7, dem and n + 7 <= 2048)
         P("lib.Get%s()" % i); libdecls.append("func Get%s() string { return %s }" % (i, q(mk("dependency-package", n, dem))))
         P("fmt.Sprintf(%s, 1)" % q(mk("format-string", n, dem)[:-2] + "%d"))
